@@ -273,7 +273,57 @@ func (global *Ast) compilePipelineDecs() error {
 			errs = append(errs, err)
 		}
 	}
+	if len(errs) == 0 {
+		if err := global.checkRecursion(); err != nil {
+			errs = append(errs, err)
+		}
+	}
 	return errs.If()
+}
+
+// Check that no pipeline calls itself through other pipelines.
+//
+// Pipeline.directDepsMap catches a pipeline which calls itself directly.
+func (global *Ast) checkRecursion() error {
+	const (
+		visiting = 1
+		done     = 2
+	)
+	state := make(map[*Pipeline]int, len(global.Pipelines))
+	var visit func(pipeline *Pipeline) error
+	visit = func(pipeline *Pipeline) error {
+		state[pipeline] = visiting
+		for _, call := range pipeline.Calls {
+			callee, ok := global.Callables.Table[call.DecId].(*Pipeline)
+			if !ok {
+				continue
+			}
+			switch state[callee] {
+			case visiting:
+				return &wrapError{
+					innerError: fmt.Errorf(
+						"RecursiveCallError: Pipeline %s calls itself through %s.",
+						callee.Id, pipeline.Id),
+					loc: call.getNode().Loc,
+				}
+			case done:
+			default:
+				if err := visit(callee); err != nil {
+					return err
+				}
+			}
+		}
+		state[pipeline] = done
+		return nil
+	}
+	for _, pipeline := range global.Pipelines {
+		if state[pipeline] == 0 {
+			if err := visit(pipeline); err != nil {
+				return err
+			}
+		}
+	}
+	return nil
 }
 
 // Check all pipeline input params are bound in a call statement.
